@@ -32,6 +32,17 @@ SHAPES = [
     "x% = 5\nDO UNTIL x%\nPRINT x%\nLOOP\n",
     "ON ERROR GOTO h\nPRINT 1 \\ 0\nPRINT 2\nEND\nh: RESUME NEXT\n",
     "ON ERROR RESUME NEXT\nx% = 32767 + 1\nPRINT 2\n",
+    # error handlers that never resume (the RESUME exemption does not apply): left with RETURN, GOTO, END, or running off the end,
+    # after an error in the middle of an expression (operands pending) at module level, in a GOSUB routine, in a FOR header
+    "ON ERROR GOTO h\nGOSUB w\nPRINT \"back\"\nEND\nw: PRINT \"r\"; 10 \\ z%\nPRINT \"unreached\"\nRETURN\nh: PRINT \"h\"\nRETURN\n",
+    "ON ERROR GOTO h\nGOSUB w\nPRINT \"back\"\nGOSUB w2\nPRINT \"back2\"\nEND\nw: x% = 7 + 3 * (1 \\ z%)\nRETURN\nw2: PRINT \"w2\"\nRETURN\nh: PRINT \"h\"; ERR\nRETURN\n",
+    "ON ERROR GOTO h\nx% = 7 + 1 \\ z%\nPRINT \"no\"\ncont: PRINT \"cont\"\nGOSUB s\nPRINT \"end\"\nEND\ns: PRINT \"s\"\nRETURN\nh: GOTO cont\n",
+    "ON ERROR GOTO h\nPRINT \"a\"; 2 * (3 + 1 \\ z%)\nPRINT \"no\"\nEND\nh: PRINT \"h\"\nEND\n",
+    "ON ERROR GOTO h\nPRINT zf%(2) + 5 * zf%(0)\nPRINT \"no\"\nEND\nh: PRINT \"h\"; ERR\nFUNCTION zf% (n%)\nzf% = 10 \\ n%\nEND FUNCTION\n",
+    "ON ERROR GOTO h\nGOSUB w\nPRINT \"back\"\nEND\nw: FOR i% = 1 TO 5 + 10 \\ z%\nNEXT\nRETURN\nh: PRINT \"h\"\nRETURN\n",
+    "ON ERROR GOTO h\nGOSUB w\nPRINT \"back\"\nEND\nw: zs 3 + 1 \\ z%\nPRINT \"w2\"\nRETURN\nh: PRINT \"h\"\nRETURN\nSUB zs (n%)\nPRINT n%\nEND SUB\n",
+    "ON ERROR GOTO h\nDIM q(3)\nGOSUB w\nPRINT \"back\"; q(1)\nEND\nw: q(1) = 4 + q(5)\nRETURN\nh: q(1) = 9\nRETURN\n",
+    "ON ERROR GOTO h\nFOR k% = 1 TO 3\nGOSUB w\nNEXT\nPRINT \"end\"; k%\nEND\nw: PRINT k%; 100 \\ (k% - 2)\nRETURN\nh: PRINT \"h\"\nRETURN\n",
     # characters inside literals and DATA items that a source pre-processing step could touch
     "PRINT \"a\tb\"; LEN(\"a\tb\")\nREAD x$, y$\nPRINT x$; LEN(x$); y$; LEN(y$)\nDATA \"p\tq\", r\ts\n",
     "x$ = \"  lead\": y$ = \"trail  \": z$ = \"a  b\"\nPRINT x$; y$; z$; LEN(x$ + y$ + z$)\nDATA \"  q  \",  r  r  ,\nREAD a$, b$, c$\nPRINT a$; b$; c$; LEN(a$); LEN(b$)\n",
